@@ -52,7 +52,7 @@ def kani(P, u, prop):
     if not P.variants:
         return
     # expected value + structural equality + expected per-slot clone counts
-    sarms, earms, carms = [], [], []
+    sarms, earms, carms, marms = [], [], [], []
     for v in P.variants:
         ts = ["*x%d == *y%d" % (f.idx, f.idx) for f in v.fields]
         sarms.append("(%s, %s) => %s," % (P.pat(v, "x"), P.pat(v, "y"), conj(ts)))
@@ -74,9 +74,11 @@ def kani(P, u, prop):
         for c in cnt:
             exp[int(c)] = "%su8" % (int(exp[int(c)][:-2]) + 1)
         carms.append("%s => [%s]," % (P.pat(v, "_c", only=set()), ", ".join(exp)))
+        marms.append("%s => %d," % (P.pat(v, "_c", only=set()), 0 if bitwise(P) else sum(1 for f in v.fields if f.s("clone", "method"))))
     u.kani_oracle.append("pub fn same(x: &TI, y: &TI) -> bool {\n    match (x, y) {\n        %s\n        _ => false,\n    }\n}\n" % "\n        ".join(sarms))
     u.kani_oracle.append("/// the value clone() must return (built without calling any Clone impl)\npub fn clone_spec(x: &TI) -> TI {\n    match x {\n        %s\n    }\n}\n" % "\n        ".join(earms))
     u.kani_oracle.append("/// how often each counted field slot's own Clone::clone must run\npub fn clone_counts(x: &TI) -> [u8; 6] {\n    match x {\n        %s\n    }\n}\n" % "\n        ".join(carms))
+    u.kani_oracle.append("/// how often a custom clone method must run\npub fn method_calls(x: &TI) -> u8 {\n    match x {\n        %s\n    }\n}\n" % "\n        ".join(marms))
     copy_stmt = ('{ use crate::src::{IsCopy, IsNotCopy}; assert!((&crate::src::Probe::<TI>(core::marker::PhantomData)).is_copy(), "contract: with Copy educed the type is Copy"); }'
                  if is_copy(P) else "")
     u.kani_harness.append("""
@@ -86,24 +88,30 @@ pub fn clone_h() {
     crate::m::ctr_reset();
     let r = Clone::clone(&a);
     let counts = crate::m::ctr_counts();
+    let mc = crate::m::mcalls();
     assert!(oracle::same(&r, &oracle::clone_spec(&a)), "contract: clone() == field-wise clone / method of the same variant");
     assert!(counts == oracle::clone_counts(&a), "contract: each field's own Clone::clone runs exactly once (never with Copy)");
+    assert!(mc == oracle::method_calls(&a), "contract: each custom clone method runs exactly once");
     %s
     kani::cover!(true);
 }
 #[kani::proof]
 pub fn clone_from_h() {
     let mut a = oracle::mk(&mut KaniSrc); let b = oracle::mk(&mut KaniSrc);
+    crate::m::ctr_reset();
     Clone::clone_from(&mut a, &b);
+    let (counts, mc) = (crate::m::ctr_counts(), crate::m::mcalls());
     assert!(oracle::same(&a, &oracle::clone_spec(&b)), "contract: after a.clone_from(&b), a == b.clone()");
+    assert!(counts == oracle::clone_counts(&b) && mc == oracle::method_calls(&b), "contract: clone_from clones each field of the source exactly once (its own Clone or the custom method)");
     kani::cover!(true);
 }
 """ % copy_stmt)
     u.kani_obls["clone_h"] = ("%s/%s/Clone::clone/contract" % (prop, P.pid), "clone() == clone_spec(a) and per-slot clone counts == expected")
-    u.kani_obls["clone_from_h"] = ("%s/%s/Clone::clone_from/contract" % (prop, P.pid), "after a.clone_from(&b): a == clone_spec(b), for all (a, b)")
+    u.kani_obls["clone_from_h"] = ("%s/%s/Clone::clone_from/contract" % (prop, P.pid), "after a.clone_from(&b): a == clone_spec(b) and every field of b was cloned exactly once, for all (a, b)")
     u.replay.append('{ let a = oracle::mk(s); let b = oracle::mk(s);\n'
                     '    crate::m::ctr_reset(); let r = Clone::clone(&a); let counts = crate::m::ctr_counts();\n'
                     '    chk(out, "a.clone() == clone_spec(a)", oracle::same(&r, &oracle::clone_spec(&a)), true);\n'
                     '    chk(out, "clone counts", counts, oracle::clone_counts(&a));\n'
-                    '    let mut a2 = oracle::clone_spec(&a); Clone::clone_from(&mut a2, &b);\n'
-                    '    chk(out, "after a.clone_from(&b): a == clone_spec(b)", oracle::same(&a2, &oracle::clone_spec(&b)), true); }')
+                    '    let mut a2 = oracle::clone_spec(&a); crate::m::ctr_reset(); Clone::clone_from(&mut a2, &b); let (c2, m2) = (crate::m::ctr_counts(), crate::m::mcalls());\n'
+                    '    chk(out, "after a.clone_from(&b): a == clone_spec(b)", oracle::same(&a2, &oracle::clone_spec(&b)), true);\n'
+                    '    chk(out, "clone_from: own-Clone counts of the source fields", c2, oracle::clone_counts(&b)); chk(out, "clone_from: custom method calls", m2, oracle::method_calls(&b)); }')
